@@ -304,6 +304,32 @@ static std::string do_tsan(const std::string & line) {
     return "FT ok count=" + std::to_string(cnt) + " usize=" + std::to_string(usz);
 }
 
+// FL <delay_ms> <level> <cs> <restore> | objs : as FS, but the compression level is assigned AFTER open() and a pause, before the
+// first write() (a legal call sequence: the workers must use the value in force when the data arrives, not the one at open())
+static std::string do_write_late_config(const std::string & line) {
+    std::vector<std::string> parts = split_bar(line);
+    std::istringstream hs(parts[0]);
+    std::string cmd;
+    int delay = 0, level = 1, restore = 0;
+    long cs = 0x20000;
+    hs >> cmd >> delay >> level >> cs >> restore;
+    std::string path = g_tmp + ".l.blf";
+    {
+        File f;
+        f.setDefaultLogContainerSize(static_cast<uint32_t>(cs));
+        f.writeRestorePoints = restore != 0;
+        f.open(path.c_str(), std::ios_base::out);
+        if (!f.is_open()) return "FL err open";
+        if (delay > 0) std::this_thread::sleep_for(std::chrono::milliseconds(delay));
+        f.compressionLevel = level;
+        write_objects(f, parts, 1);
+        f.close();
+    }
+    std::string out = "FL ok " + slurp_hex(path);
+    std::remove(path.c_str());
+    return out;
+}
+
 // FE <reads> <sleep_ms> <mode> <hex> : read `reads` objects (all if < 0), pause, then close (0) / destroy (1) /
 // close twice then destroy (2).  Prints objects read, flags, and the change in live allocations over the session.
 static std::string do_read_early(const std::string & line) {
@@ -540,6 +566,7 @@ int main(int argc, char ** argv) {
             else if (line.compare(0, 3, "FH ") == 0) r = do_history(line);
             else if (line.compare(0, 3, "FN ") == 0) r = do_memory_write(line);
             else if (line.compare(0, 3, "FT ") == 0) r = do_tsan(line);
+            else if (line.compare(0, 3, "FL ") == 0) r = do_write_late_config(line);
             else if (line.compare(0, 3, "FU ") == 0) r = do_memory_file(line);
             else r = "? bad case";
         } catch (std::exception & ex) {
